@@ -5,7 +5,6 @@ From Gen Require Import Tables.
 From Codec Require Import Wire Impl Statements ProofsIds ProofsHeader.
 Open Scope N_scope.
 
-
 (* ---------- setters on headers ---------- *)
 
 Lemma set_pid_tf h v : tf (set_pid h v) = tf h.
@@ -629,9 +628,6 @@ Proof.
     + split; assumption.
     + split; [exact I1|reflexivity].
 Qed.
-
-Lemma length_eqb_len (s : bytes) : (length s =? 0)%nat = (len s =? 0).
-Proof. destruct s; reflexivity. Qed.
 
 Lemma version_cases v : version_ok v = true -> v = 3 \/ v = 4.
 Proof. unfold version_ok, supported_versions. cbn [existsb fst]. lia. Qed.
